@@ -2,6 +2,7 @@ import QibProofs.Lemmas.EncodeSum
 import QibProofs.Lemmas.EncodePrune
 import QibProofs.Lemmas.EncodeTotal
 import QibProofs.Lemmas.EncodeExtra
+import QibProofs.Lemmas.EncodeParityEquiv
 /-!
 C12 — Parity encoding is a faithful parity-basis representation.
 
@@ -10,9 +11,9 @@ Property theorems only (proofs in `Lemmas/Encode*.lean`), stated about the execu
 `encLadder .parity L i kind = ½ (s₀.mat + s₁.mat)` is what the encoder substitutes for the ladder operator of site `i`
 (`kind = true`: creation); `encMat φ .parity L op = Σ_terms Σ_entries coeff • Π encLadder` (ordered products).
 
-The statement "spectra are preserved" is obtained here from the representation-theoretic hypotheses that are proved
-(canonical anticommutation relations, adjointness, vacuum, dimension `2^L`) plus the cited uniqueness of such a
-representation up to unitary equivalence; the cited step is not formalised.
+"Spectra are preserved" is proved outright (no cited uniqueness theorem): `C12_parity_unitary_equiv` exhibits the unitary
+`V |n⟩ = (-1)^{N(N-1)/2} |p(n)⟩`, `p(n)_j = n_0 + … + n_j mod 2` (qubit `j` stores the parity of the sites `0..j`) with
+`mat (parityEncode op) = V · op.mat · Vᴴ` for every field operator, and `C12_parity_spectrum` maps eigenpairs to eigenpairs.
 -/
 open Complex Matrix
 namespace Qib.Encode
@@ -164,12 +165,69 @@ theorem C12_parity_number_encode {α : Type} [EncScalar α] {φ : α → ℂ} (h
   have hb : (OType.annihil == OType.create) = false := rfl
   simp [encMat, termMat, numberOp, ladderProd, hφ.one, hb]
 
+/-! ### the parity basis: unitary equivalence with the fermionic operator -/
+
+/-- the parity basis state of an occupation state, the sign, and the signed permutation `V` -/
+theorem C12_parity_basis_def (L : ℕ) (n p : Fin L → Bool) (j : Fin L) :
+    parOf n j = decide ((∑ k : Fin L, if k.val ≤ j.val then (n k).toNat else 0) % 2 = 1) ∧
+    wSign n = (-1) ^ ((∑ k : Fin L, (n k).toNat) * ((∑ k : Fin L, (n k).toNat) - 1) / 2) ∧
+    parityBasis L p n = (if p = parOf n then wSign n else 0) := ⟨rfl, rfl, rfl⟩
+
+/-- `V` is unitary; `parOf` is injective (the occupation of site `j` is the difference of neighbouring parity qubits) -/
+theorem C12_parity_basis_unitary (L : ℕ) :
+    (parityBasis L)ᴴ * parityBasis L = 1 ∧ parityBasis L * (parityBasis L)ᴴ = 1 ∧
+    (∀ n n' : Fin L → Bool, parOf n = parOf n' → n = n') :=
+  ⟨parityBasis_unitary L, parityBasis_unitary' L, parOf_injective⟩
+
+/-- every encoded ladder operator is the image of the fermionic ladder operator (sign string on later sites) under `V`:
+the parity encoding *is* the fermionic algebra written in the parity basis -/
+theorem C12_parity_ladder_equiv (L i : ℕ) (hi : i < L) (create : Bool) :
+    encLadder .parity L i create = parityBasis L * ladder L i create * (parityBasis L)ᴴ := parLadder_conj L i hi create
+
+/-- **faithfulness**: for every field operator the parity-encoded Pauli operator is unitarily equivalent to the field
+operator's own matrix, by the same `V` for all operators -/
+theorem C12_parity_unitary_equiv {α : Type} [EncScalar α] {φ : α → ℂ} (hφ : ScalarHom φ) (isZ : α → Bool)
+    (hz : ∀ w, isZ w = true → φ w = 0) (fop : FieldOp α) (op : PauliOp α)
+    (h : encode .parity isZ fop = .ok op) (hwf : fop.WF) :
+    ∃ L, fieldCheck fop = .ok L ∧
+      PauliOp.mat φ L op = parityBasis L * refMat φ L fop * (parityBasis L)ᴴ := by
+  obtain ⟨raw, hraw, rfl⟩ := (C12_encode_unfold .parity isZ fop op).mp h
+  obtain ⟨L, hL, hm⟩ := encodeRaw_parity_conj hφ fop raw hraw hwf
+  refine ⟨L, hL, ?_⟩
+  rw [← hm]
+  exact PauliOp.removeZero_matG (PS.mat L) φ isZ hz raw
+
+/-- so spectra are preserved: `V` maps every eigenvector of the field operator to an eigenvector of the encoded operator
+with the same eigenvalue, `Vᴴ` maps back, and neither kills a vector -/
+theorem C12_parity_spectrum {L : ℕ} (A B : Matrix (Fin L → Bool) (Fin L → Bool) ℂ)
+    (hAB : A = parityBasis L * B * (parityBasis L)ᴴ) (μ : ℂ) (v : (Fin L → Bool) → ℂ) :
+    (B.mulVec v = μ • v → A.mulVec ((parityBasis L).mulVec v) = μ • (parityBasis L).mulVec v) ∧
+    (A.mulVec v = μ • v → B.mulVec ((parityBasis L)ᴴ.mulVec v) = μ • (parityBasis L)ᴴ.mulVec v) ∧
+    ((parityBasis L).mulVec v = 0 → v = 0) ∧ ((parityBasis L)ᴴ.mulVec v = 0 → v = 0) := by
+  have hU := parityBasis_unitary L
+  have hU' := parityBasis_unitary' L
+  have hBA : B = (parityBasis L)ᴴ * A * parityBasis L := by
+    rw [hAB]; simp only [Matrix.mul_assoc]; rw [hU, Matrix.mul_one, ← Matrix.mul_assoc, hU, Matrix.one_mul]
+  refine ⟨fun h => ?_, fun h => ?_, fun h => ?_, fun h => ?_⟩
+  · rw [hAB, Matrix.mulVec_mulVec, Matrix.mul_assoc, Matrix.mul_assoc, hU, Matrix.mul_one, ← Matrix.mulVec_mulVec, h,
+      Matrix.mulVec_smul]
+  · rw [hBA, Matrix.mulVec_mulVec, Matrix.mul_assoc, Matrix.mul_assoc, hU', Matrix.mul_one, ← Matrix.mulVec_mulVec, h,
+      Matrix.mulVec_smul]
+  · have := congrArg ((parityBasis L)ᴴ.mulVec) h
+    rwa [Matrix.mulVec_mulVec, hU, Matrix.one_mulVec, Matrix.mulVec_zero] at this
+  · have := congrArg ((parityBasis L).mulVec) h
+    rwa [Matrix.mulVec_mulVec, hU', Matrix.one_mulVec, Matrix.mulVec_zero] at this
+
 /-! ### not Jordan-Wigner -/
 
-/-- on two or more sites the parity strings of every ladder operator differ from its Jordan-Wigner strings -/
+/-- on two or more sites the parity strings of every ladder operator differ from its Jordan-Wigner strings, and so do the
+encoded ladder matrices (an encoder that silently returned Jordan-Wigner strings would violate this) -/
 theorem C12_parity_not_jw (L i : ℕ) (hL : 2 ≤ L) (hi : i < L) (create : Bool) :
-    ladderPair .parity L i create ≠ ladderPair .jw L i create ∧ s0 .parity L i ≠ s0 .jw L i :=
-  ⟨parity_pair_ne_jw L i hL hi create, parity_s0_ne_jw L i hL hi⟩
+    ladderPair .parity L i create ≠ ladderPair .jw L i create ∧ s0 .parity L i ≠ s0 .jw L i ∧
+    encLadder .parity L i create ≠ encLadder .jw L i create := by
+  refine ⟨parity_pair_ne_jw L i hL hi create, parity_s0_ne_jw L i hL hi, ?_⟩
+  rw [jw_ladder L i hi create]
+  exact parity_ladder_ne L i hL hi create
 
 /-! ### non-vacuity -/
 
@@ -185,5 +243,7 @@ example : encode .parity (fun w => w.absLe 0) (numberOp GQ 3 0) =
     .ok [(⟨[false, false, false], [false, false, false], 0⟩, ⟨1 / 2, 0⟩), (⟨[true, false, false], [false, false, false], 0⟩, ⟨-1 / 2, 0⟩)] := by
   decide +kernel
 example : ladderPair .parity 2 1 true ≠ ladderPair .jw 2 1 true := by decide
+/-- occupation `|110⟩` is the parity state `|100⟩`, `|111⟩` is `|101⟩` -/
+example : parOf (L := 3) ![true, true, false] = ![true, false, false] ∧ parOf (L := 3) ![true, true, true] = ![true, false, true] := by decide
 
 end Qib.Encode
